@@ -16,11 +16,21 @@ CONCRETE = {
 }
 
 
-def concrete_options(opt):
+# representatives of the abstract value BAD: an invalid value can be of any Python type
+BAD_ENUM = ['camel', ['upper'], {'upper': 1}, bytearray(b'upper'), 7, ('upper',), b'upper', {'upper'}, 1.5]
+BAD_BOOL = ['maybe', [], {}, 2, 'true', bytearray(b''), 0.5, (True,)]
+BAD_INT = ['abc', [1], {}, '', b'x', float('inf'), float('nan'), -float('inf'), (2,), '1.5']
+
+
+def concrete_options(opt, variant=0):
+    """variant selects the representative of every BAD value (0: the string used everywhere else)"""
     kw = {}
-    for k, v in opt.items():
+    for i, (k, v) in enumerate(sorted(opt.items())):
         table = CONCRETE.get(k, BOOL)
         c = table[v]
+        if v == 'BAD' and variant:
+            pool = BAD_BOOL if table is BOOL else (BAD_INT if k in ('truncate_strings', 'indent_width', 'wrap_after') else BAD_ENUM)
+            c = pool[(variant + i) % len(pool)]
         if v != 'unset':
             kw[k] = c
     return kw
